@@ -23,6 +23,8 @@ MARKETS = {
     'late': {'AAA': ('rising', '41.37'), 'BBB': ('falling', '103.11'), 'CCC': ('zigzag', '17.93', len(PRE) + 3)},
     'hole': {'AAA': ('zigzag', '41.37'), 'BBB': ('gapdown', '103.11'), 'CCC': ('rising', '17.93')},
     'm4': {'AAA': ('falling', '41.37'), 'BBB': ('falling', '103.11'), 'CCC': ('gapdown', '17.93')},
+    # business days without a row (exchange holiday / data gap) after the asset's data have begun
+    'gap': {'AAA': ('zigzag', '41.37'), 'BBB': ('rising', '103.11'), 'CCC': ('falling', '17.93')},
 }
 
 
@@ -34,6 +36,10 @@ def base_market(name):
         rows[i] = (rows[i][0], None, rows[i][2])         # a missing open
         rows2 = m['CCC']
         rows2[i + 1] = (rows2[i + 1][0], rows2[i + 1][1], None)   # a missing close
+    if name == 'gap':
+        i = len(PRE)
+        m['BBB'] = [r for k, r in enumerate(m['BBB']) if k not in (i + 2, i + 3, i + 6)]
+        m['AAA'] = [r for k, r in enumerate(m['AAA']) if k not in (i + 4,)]
     return m
 
 
@@ -180,7 +186,7 @@ def item_eval(item):
 
 def items(tier):
     cfgs = configs(tier)
-    markets = ['m0', 'late', 'hole'] if tier == 'quick' else list(MARKETS)
+    markets = ['m0', 'late', 'hole', 'gap'] if tier == 'quick' else list(MARKETS)
     rewrites = ['remove', 'x3', 'reverse', 'blank'] if tier == 'quick' else REWRITES
     cuts = [c.isoformat() for c in CUTS]
     size = 10 if tier == 'quick' else 25
